@@ -1,4 +1,4 @@
-import VrpProofs.C13.Init
+import VrpProofs.C13.Binds
 /-!
 # C13 — scientific instance files are read faithfully: the property theorems
 
@@ -150,6 +150,38 @@ theorem capacity_binds_as_file_lilim (rounded : Bool) (F : LilimFile) (h : wfLil
     simp only [hp, Except.map, Except.ok.injEq] at this
     exact ⟨P, rfl, fun tour => by rw [this]; exact capacity_binds_expDumpL rounded F h tour⟩
 
+/-- **capacity and time windows together bind as the file says** (all three formats): on the problem read from a printed
+    well-formed file, a customer may be appended to a feasible tour (`dumpAppendOk`: loads from the parsed 4-tuples against
+    the parsed capacity, arrival from the parsed matrix against the parsed window, return against the parsed shift end)
+    exactly when the file's own numbers allow it (`instAppendOk` on the instance the file denotes). The real constraint
+    evaluation is compared with `instAppendOk` by the correspondence run (stream `bind`). -/
+theorem windows_and_capacity_bind_as_file (rounded : Bool) :
+    (∀ F, wfSolomon F = true → ∃ P, parseSolomon rounded (printSolomon F) = .ok P ∧
+        ∀ pre target, dumpAppendOk (observe P) pre target = instAppendOk rounded false 0 (meaningSolomon F) pre target) ∧
+    (∀ F, wfLilim F = true → ∃ P, parseLilim rounded (printLilim F) = .ok P ∧
+        ∀ pre target, dumpAppendOk (observe P) pre target = instAppendOk rounded true 0 (meaningLilim F) pre target) ∧
+    (∀ F, wfTsplib F = true → ∃ P, parseTsplib rounded (printTsplib F) = .ok P ∧
+        ∀ pre target, dumpAppendOk (observe P) pre target = instAppendOk rounded false 1 (meaningTsplib F) pre target) := by
+  refine ⟨fun F h => ?_, fun F h => ?_, fun F h => ?_⟩
+  · have := solomon_observe rounded F h
+    cases hp : parseSolomon rounded (printSolomon F) with
+    | error e => simp [hp, Except.map] at this
+    | ok P =>
+      simp only [hp, Except.map, Except.ok.injEq] at this
+      exact ⟨P, rfl, fun pre target => by rw [this]; exact binds_expDumpS rounded F h pre target⟩
+  · have := lilim_observe rounded F h
+    cases hp : parseLilim rounded (printLilim F) with
+    | error e => simp [hp, Except.map] at this
+    | ok P =>
+      simp only [hp, Except.map, Except.ok.injEq] at this
+      exact ⟨P, rfl, fun pre target => by rw [this]; exact binds_expDumpL rounded F h pre target⟩
+  · have := tsplib_observe rounded F h
+    cases hp : parseTsplib rounded (printTsplib F) with
+    | error e => simp [hp, Except.map] at this
+    | ok P =>
+      simp only [hp, Except.map, Except.ok.injEq] at this
+      exact ⟨P, rfl, fun pre target => by rw [this]; exact binds_expDumpT rounded F h pre target⟩
+
 /-! ## 4. text round trip of complete solutions -/
 
 /-- **`routes (readInit (write S)) = routes S`** for every complete solution `S` of a problem read from a well-formed
@@ -178,6 +210,21 @@ example : fileAcceptsDelivery (meaningSolomon exSolomon) [1, 2] = some false ∧
           fileAcceptsDelivery (meaningSolomon exSolomon) [1, 7] = some true := by decide
 /-- a reader that dropped the demands would accept the rejected tour: the capacity statement is not vacuous -/
 example : capAccepts 10 [⟨0, 0, 0, 0⟩, ⟨0, 0, 0, 0⟩] = true ∧ capAccepts 10 [static4 6, static4 5] = false := by decide
+
+/-- the rounded matrix of `exSolomon` (depot, customers 1, 2, 7): 5, 5, 10 from the depot; √97 ≈ 9.85 ↦ 10 between (3,4) and (-6,8) -/
+def exDist : List (List (Nat × Bool)) :=
+  [[(0, true), (5, true), (5, true), (10, true)], [(5, true), (0, true), (0, true), (10, true)],
+   [(5, true), (0, true), (0, true), (10, true)], [(10, true), (10, true), (10, true), (0, true)]]
+
+/-- time windows and capacity bind: customer 7 (window [20, 30], service 90) can be appended to the empty tour and to [1]
+    (reached at 10 resp. 25, back at the depot at 120 resp. 120); with the depot closing at 119 it cannot (back at 120);
+    customer 2 cannot be appended to [1] (6 + 5 > 10) -/
+example :
+    let stops := instStops false 0 (meaningSolomon exSolomon)
+    appendOk 10 0 (.fin 1000) exDist stops [] 7 = some true ∧ appendOk 10 0 (.fin 1000) exDist stops [1] 7 = some true ∧
+    appendOk 10 0 (.fin 119) exDist stops [] 7 = some false ∧ appendOk 10 0 (.fin 1000) exDist stops [1] 2 = some false ∧
+    appendOk 10 0 (.fin 1000) exDist stops [1, 2] 7 = none := by
+  decide
 
 /-- two requests, rows interleaved and not sorted -/
 def exLilim : LilimFile :=
